@@ -332,8 +332,8 @@ def plan(tier):
         specs.append({"part": "rooted"})
         for i in range(2):
             specs.append({"part": "url", "i": i, "n": 2, "kmax": 4, "kmax_all": 4})
-        for i in range(4):
-            specs.append({"part": "text", "i": i, "n": 20000, "batches": 2})
+        for i in range(6):
+            specs.append({"part": "text", "i": i, "n": 5000, "batches": 1})
     else:
         for i in range(32):
             specs.append({"part": "enum", "i": i, "n": 32, "kmin": 0, "kmax": 6, "kmax_all": 6})
